@@ -24,6 +24,9 @@ Property theorems only (helper lemmas: `VncModel/Wire/*Lemmas.lean`).
 * `count_eq_emitted_*`         "each FramebufferUpdate announces exactly the number of rectangles that
                                follow": the planning count of one region rectangle equals the number of
                                rectangles the encoder emits, for every w, h ≥ 1.
+* `tight_unknown_iff_search`, `tight_exact_count_never_searches`
+                               Tight: the count is 0 exactly when the emitter searches for solid areas; an exact
+                               count is never followed by a content-dependent split.
 * `announced_eq_following`     the announced total equals the rectangles that follow, below 65535.
 * `announced_open_form`        otherwise (Tight, unknown count) 65535 is announced, a LastRect marker
                                terminates the update and the client did enable LastRect.
@@ -101,6 +104,49 @@ theorem count_eq_emitted_tight (lastRect : Bool) (x y w h : Nat) (hw : 1 ≤ w) 
 
 example : tightIsSimple true 4095 1 = true ∧ (tightSimpleSplit 0 0 4095 1).length = 2 := by decide
 example : (tightSimpleSplit 0 0 2049 33).length = 4 := by decide
+
+/-- **Tight: the count is exact precisely when the emitter cannot split by content.**
+`rfbNumCodedRectsTight` returns 0 ("unknown") exactly when `SendRectEncodingTight` enters its
+solid-area search (`enableLastRectEncoding && w*h ≥ MIN_SPLIT_RECT_SIZE`; the emitter's guard is the
+complement — checked on the C text by T0, `tightSearchGuardChecked`; the counter's side by T1). -/
+theorem tight_unknown_iff_search (lastRect : Bool) (w h : Nat) :
+    tightCount lastRect w h = 0 ↔ tightIsSimple lastRect w h = false := by
+  constructor
+  · intro h0
+    obtain ⟨hl, hs⟩ := tightCount_zero lastRect w h h0
+    unfold tightIsSimple
+    simp only [hl, Bool.not_true, Bool.false_or, decide_eq_false_iff_not]
+    omega
+  · intro hs
+    cases hc : tightCount lastRect w h with
+    | zero => rfl
+    | succ n =>
+      exfalso
+      unfold tightIsSimple at hs
+      cases lastRect with
+      | false => simp at hs
+      | true =>
+        simp only [Bool.not_true, Bool.false_or, decide_eq_false_iff_not] at hs
+        unfold tightCount at hc
+        rw [if_pos ⟨rfl, by omega⟩] at hc
+        cases hc
+
+/-- hence: whenever the announced Tight count is exact (≠ 0) the emitter goes straight to
+SendRectSimple — it cannot split further by content — and emits exactly that many rectangles;
+whenever it may search for solid areas the count was 0, i.e. the update is announced as 0xFFFF and
+closed by LastRect (`announced_open_form`). -/
+theorem tight_exact_count_never_searches (lastRect : Bool) (x y w h : Nat) (hw : 1 ≤ w) (hh : 1 ≤ h)
+    (hc : tightCount lastRect w h ≠ 0) :
+    tightIsSimple lastRect w h = true ∧ (tightSimpleSplit x y w h).length = tightCount lastRect w h := by
+  have hs : tightIsSimple lastRect w h = true := by
+    cases hq : tightIsSimple lastRect w h with
+    | true => rfl
+    | false => exact absurd ((tight_unknown_iff_search lastRect w h).mpr hq) hc
+  exact ⟨hs, count_eq_emitted_tight lastRect x y w h hw hh hs⟩
+
+example : tightCount true 64 64 = 0 ∧ tightIsSimple true 64 64 = false := by decide
+example : tightCount true 63 65 = 1 ∧ tightIsSimple true 63 65 = true := by decide
+example : VncModel.Gen.C03.tightSearchGuardChecked = true := rfl
 
 /-- all encodings at once: whenever the split is a function of the geometry, count = emission -/
 theorem count_eq_emitted (enc : Nat) (lastRect : Bool) (g : Geo) (l : List Geo) (hp : g.pos)
